@@ -303,8 +303,9 @@ func genMessage(t *rapid.T, st *genState, allowSled bool) (r *rec, op opRec) {
 	if st.big {
 		// a node that is catching up: mostly block parts from peers, which go through Write (no flush), so that the
 		// head's 40 KiB buffer fills up and flushes itself in the middle of a record
-		kinds = []string{"vote", "part", "part", "part", "part", "part", "part", "part", "proposal", "timeout", "roundstate", "endheight"}
-		ownOneIn = 16
+		kinds = []string{"vote", "vote", "vote", "part", "part", "part", "part", "part", "part", "part", "part", "part", "part", "part", "part",
+			"part", "part", "part", "proposal", "timeout", "timeout", "roundstate", "roundstate", "endheight"}
+		ownOneIn = 40
 	}
 	kind := rapid.SampledFrom(kinds).Draw(t, "kind")
 	r = &rec{kind: kind}
@@ -344,8 +345,8 @@ func genMessage(t *rapid.T, st *genState, allowSled bool) (r *rec, op opRec) {
 	case "part":
 		var n int
 		switch {
-		case st.big && rapid.IntRange(0, 2).Draw(t, "bigpart") != 0:
-			n = rapid.IntRange(1000, 7000).Draw(t, "partlen")
+		case st.big && rapid.IntRange(0, 5).Draw(t, "bigpart") != 0:
+			n = rapid.IntRange(3000, 9000).Draw(t, "partlen")
 		case rapid.Bool().Draw(t, "tiny"):
 			n = rapid.IntRange(1, 48).Draw(t, "partlen")
 		default:
@@ -462,7 +463,7 @@ func readGroupFiles(dir string) ([][]byte, error) {
 // Real precondition of RotateFile (Group.checkHeadSizeLimit, the only caller): the head file exists and is
 // non-empty (size >= limit > 0); it is called from the group's ticker goroutine, i.e. between any two
 // writes, whether or not the head's buffer has been flushed.
-func writeLog(t vstat.TB, dir string, recs []*rec, ops []opRec, rotate func(i int) (rot bool, flushFirst bool), excludeKnown bool) *walLog {
+func writeLog(t vstat.TB, dir string, recs []*rec, ops []opRec, rotate func(i int, torn func() bool) (rot bool, flushFirst bool), excludeKnown bool) *walLog {
 	headPath := filepath.Join(dir, walName)
 	w, err := cs.NewWAL(headPath)
 	if err != nil {
@@ -495,13 +496,23 @@ func writeLog(t vstat.TB, dir string, recs []*rec, ops []opRec, rotate func(i in
 		unsynced = !r.sync // WriteSync flushes everything buffered so far
 		all = append(all, r)
 		op := ops[i]
-		if rot, flushFirst := rotate(i); rot && fileSize(headPath) > 0 {
+		// torn: the head's buffer has flushed itself in the middle of a record (more than 40 KiB written without WriteSync)
+		torn := func() bool { return unsynced && fileSize(headPath) > 0 && !recordAligned(headPath) }
+		if rot, flushFirst := rotate(i, torn); rot && fileSize(headPath) > 0 {
 			op.Rot = "rot"
+			switch {
+			case flushFirst:
+				vstat.Label("rotation_after_flush")
+			case !unsynced:
+				vstat.Label("rotation_buffer_empty")
+			default:
+				vstat.Label("rotation_buffer_not_empty")
+			}
 			if flushFirst {
 				w.Group().Flush()
 				unsynced = false
 				op.Rot = "flush+rot"
-			} else if unsynced && excludeKnown && vstat.IsKnown(P, kSplit) && !recordAligned(headPath) {
+			} else if excludeKnown && vstat.IsKnown(P, kSplit) && torn() {
 				// the bufio.Writer flushed itself in the middle of a record; rotating now splits that record across
 				// two files, which only re-hits the listed finding kSplit: flush first (TestRegressionRotateSplitsRecord
 				// keeps the finding observed)
@@ -796,7 +807,7 @@ func (c *checker) query(w cs.WAL, h uint64, ignore bool, markerRec int, exp expe
 		if c.lg.split {
 			key = kSplit
 		}
-		c.violation(key, "%s = (not found, err=%v) although the marker record [%d,%d) in file %d is complete and nothing read before it is damaged",
+		c.violation(key, "%s = (not found, err=%v) although the marker record [%d,%d) in file %d is complete and nothing the search has to read before it is damaged beyond what it was asked to skip",
 			who, res.err, c.lg.recs[markerRec].start, c.lg.recs[markerRec].end, c.lg.recs[markerRec].file)
 	case findOrError:
 		if res.err == nil {
@@ -1205,6 +1216,10 @@ func (c *checker) checkAltered(w cs.WAL, ai int, a alteration, fd int) {
 		case fd < m.file, fd == m.file && r > j:
 			// no pass reads the damaged byte before it reads the marker
 			c.query(w, m.height, ignore, j, mustFind, after, false, true)
+		case ignore && class != "len":
+			// the framing is intact (only a checksum or payload byte of ANOTHER record is off) and the caller asked to skip
+			// corrupted records: the search steps over record r and the equivalence found <=> completely written holds
+			c.query(w, m.height, ignore, j, mustFind, after, false, true)
 		case fd > m.file:
 			c.query(w, m.height, ignore, j, findOrError, after, false, true)
 		default:
@@ -1247,14 +1262,21 @@ func runLog(t *rapid.T) {
 	switch rapid.IntRange(0, 9).Draw(t, "sizeclass") {
 	case 0:
 		st.big = true
-		nmsg = rapid.IntRange(10, 60).Draw(t, "nmsg")
+		nmsg = rapid.IntRange(25, 60).Draw(t, "nmsg")
 	case 1, 2:
 		nmsg = rapid.IntRange(20, 60).Draw(t, "nmsg")
 	default:
 		nmsg = rapid.IntRange(1, 24).Draw(t, "nmsg")
 	}
-	allSync := rapid.IntRange(0, 3).Draw(t, "allsync") == 0 // every write through WriteSync
+	// The size check runs on a timer, so it can fire at the worst moment: half of the big logs rotate (probability 1/2
+	// per write) exactly while the head on disk ends in the first part of a record.  Those logs keep their long unflushed
+	// stretches: no WriteSync-only mode and few other rotations (half of which flush).
+	rotOnTorn := st.big && rapid.Bool().Draw(t, "rot_on_torn")
+	allSync := !rotOnTorn && rapid.IntRange(0, 3).Draw(t, "allsync") == 0 // every write through WriteSync
 	rotEvery := rapid.SampledFrom([]int{0, 0, 2, 4, 8, 16}).Draw(t, "rot_every")
+	if rotOnTorn {
+		rotEvery = rapid.SampledFrom([]int{0, 16}).Draw(t, "rot_every_big")
+	}
 	allowSled := !vstat.IsKnown(P, kResync)
 
 	var recs []*rec
@@ -1266,7 +1288,10 @@ func runLog(t *rapid.T) {
 		}
 		recs, ops = append(recs, r), append(ops, op)
 	}
-	rotate := func(i int) (bool, bool) {
+	rotate := func(i int, torn func() bool) (bool, bool) {
+		if rotOnTorn && torn() && rapid.Bool().Draw(t, "rot_now") {
+			return true, false
+		}
 		if rotEvery == 0 || rapid.IntRange(0, rotEvery-1).Draw(t, "rotate") != 0 {
 			return false, false
 		}
@@ -1352,7 +1377,7 @@ func TestRegressionRotateSplitsRecord(t *testing.T) {
 	}
 	rotAt := len(recs) - 1
 	recs = append(recs, markerRec(2), markerRec(3))
-	lg := writeLog(t, filepath.Join(dir, "w"), recs, opsOf(recs), func(i int) (bool, bool) { return i == rotAt, false }, false)
+	lg := writeLog(t, filepath.Join(dir, "w"), recs, opsOf(recs), func(i int, _ func() bool) (bool, bool) { return i == rotAt, false }, false)
 	if lg == nil {
 		return
 	}
@@ -1371,7 +1396,7 @@ func TestRegressionTornTailHidesOlderMarker(t *testing.T) {
 	dir := newCaseDir()
 	defer os.RemoveAll(dir)
 	recs := []*rec{markerRec(1), partRec(100, nil, true)}
-	lg := writeLog(t, filepath.Join(dir, "w"), recs, opsOf(recs), func(i int) (bool, bool) { return i == 0, false }, false)
+	lg := writeLog(t, filepath.Join(dir, "w"), recs, opsOf(recs), func(i int, _ func() bool) (bool, bool) { return i == 0, false }, false)
 	if lg == nil {
 		return
 	}
@@ -1398,7 +1423,7 @@ func TestRegressionResyncFindsUnwrittenMarker(t *testing.T) {
 		p := partRec(n, bytes.Repeat(sled, n/len(sled)+1)[:n], false)
 		p.sled = sled
 		recs := []*rec{markerRec(1), p, markerRec(2)}
-		lg := writeLog(t, filepath.Join(dir, "w"), recs, opsOf(recs), func(i int) (bool, bool) { return false, false }, false)
+		lg := writeLog(t, filepath.Join(dir, "w"), recs, opsOf(recs), func(i int, _ func() bool) (bool, bool) { return false, false }, false)
 		if lg == nil {
 			os.RemoveAll(dir)
 			return
